@@ -91,6 +91,28 @@ def closedForm [DecidableEq F] (rows : List (SRow F)) (p : Nat) : Option (List F
                det3 (S 0 0) (S 0 1) (b 0) (S 1 0) (S 1 1) (b 1) (S 2 0) (S 2 1) (b 2) / dt]
   | _ => none
 
+/-- determinant of a p x p matrix given by its entries, p = 1, 2, 3 (0 otherwise) -/
+def detP (S : Nat → Nat → F) : Nat → F
+  | 1 => S 0 0
+  | 2 => det2 (S 0 0) (S 0 1) (S 1 0) (S 1 1)
+  | 3 => det3 (S 0 0) (S 0 1) (S 0 2) (S 1 0) (S 1 1) (S 1 2) (S 2 0) (S 2 1) (S 2 2)
+  | _ => ((0 : Nat) : F)
+
+/-- the model of `np.linalg.solve(S, b)` on its own (Cramer's rule, p = 1, 2, 3; `none` = LinAlgError): what the
+    generated `Gen.snm_closed_solver` / `Gen.snm_fit_closed` are run with in the driver; `closedForm rows p` is
+    `cramer (lhm rows) (rha rows) p` (`Props/C15_Gen.lean`, `closedForm_eq_cramer`) -/
+def cramer [DecidableEq F] (S : Nat → Nat → F) (b : Nat → F) (p : Nat) : Option (List F) :=
+  let dt := detP S p
+  if dt = ((0 : Nat) : F) then none else
+  match p with
+  | 1 => some [b 0 / dt]
+  | 2 => some [det2 (b 0) (S 0 1) (b 1) (S 1 1) / dt,
+               det2 (S 0 0) (b 0) (S 1 0) (b 1) / dt]
+  | 3 => some [det3 (b 0) (S 0 1) (S 0 2) (b 1) (S 1 1) (S 1 2) (b 2) (S 2 1) (S 2 2) / dt,
+               det3 (S 0 0) (b 0) (S 0 2) (S 1 0) (b 1) (S 1 2) (S 2 0) (b 2) (S 2 2) / dt,
+               det3 (S 0 0) (S 0 1) (b 0) (S 1 0) (S 1 1) (b 1) (S 2 0) (S 2 1) (b 2) / dt]
+  | _ => none
+
 /-! ### one-parameter model, saturated exposure model: the stratified closed form -/
 
 /-- weighted totals of one stratum (all rows share the fitted value `pi`) -/
